@@ -4,11 +4,35 @@
 #![allow(clippy::all)]
 #![allow(unused)]
 pub mod sym;
+pub mod c01;
+pub mod c04;
+pub mod c05;
+pub mod c06;
 pub mod c10;
+pub mod c11;
+pub mod c13;
+pub mod c14;
+pub mod c15;
+pub mod c16;
+pub mod c17;
+pub mod c18;
+pub mod c19;
 
 /// name -> body, for the replay binary
 pub fn registry() -> Vec<(&'static str, fn())> {
     let mut v: Vec<(&'static str, fn())> = Vec::new();
+    v.extend_from_slice(c04::HARNESSES);
+    v.extend_from_slice(c01::HARNESSES);
+    v.extend_from_slice(c05::HARNESSES);
+    v.extend_from_slice(c06::HARNESSES);
     v.extend_from_slice(c10::HARNESSES);
+    v.extend_from_slice(c11::HARNESSES);
+    v.extend_from_slice(c13::HARNESSES);
+    v.extend_from_slice(c14::HARNESSES);
+    v.extend_from_slice(c15::HARNESSES);
+    v.extend_from_slice(c16::HARNESSES);
+    v.extend_from_slice(c17::HARNESSES);
+    v.extend_from_slice(c18::HARNESSES);
+    v.extend_from_slice(c19::HARNESSES);
     v
 }
